@@ -199,7 +199,7 @@ def annotated_functions():
     for future in (False, True):
         for shape in shapes:
             names = [p[0] for p in shape]
-            for pattern in ('none', 'all', 'first+return'):
+            for pattern in ('none', 'all', 'first+return') + (('unresolvable',) if future else ()):
                 ann = {}
                 ret = None
                 if pattern == 'all':
@@ -210,6 +210,10 @@ def annotated_functions():
                         continue
                     ann = {names[0]: 'T1'}
                     ret = 'T1'
+                elif pattern == 'unresolvable':
+                    # names that exist only for type checkers (if TYPE_CHECKING: import ...)
+                    ann = dict((n, 'OnlyForTypeCheckers_') for n in names)
+                    ret = 'AlsoOnlyForTypeCheckers_'
                 ns = {'__name__': 'vfc14'}
                 exec(ANN_SRC, ns)
                 defaults = dict((p[0], repr('d_' + p[0])) for p in shape if p[2])
@@ -242,7 +246,7 @@ def e1_shard(tier, sh):
                 viol('equality-wrong', {'what': 'signature vs inspect.signature(f)', 'result': repr(e)}, {'what': 'inspect twin'})
             # combinations keep the laws
             for opn, res in (('merge', safe(lambda: S.merge(sig, sig))), ('embed', safe(lambda: S.embed(sig, sig))),
-                             ('mask', safe(lambda: S.mask(sig, 0))), ('evaluated', safe(lambda: sig.evaluated()))):
+                             ('mask', safe(lambda: S.mask(sig, 0)))) + ((('evaluated', safe(lambda: sig.evaluated())),) if 'unresolvable' not in label else ()):
                 if res[0] == 'ok':
                     light_checks(res[1], viol)
                     st.seen('result', (label, opn))
@@ -276,7 +280,7 @@ def run(tier, seed):
     }
     assumptions = [
         'the plain counterpart is inspect.Signature / inspect.Parameter built from name, kind, default, annotation, return annotation',
-        'postponed annotations of the universe are resolvable in their defining globals',
+        'postponed annotations of the universe are resolvable in their defining globals, except the pattern "unresolvable" (names that exist only for type checkers): comparisons must still return a bool',
     ]
     return st, coverage, assumptions
 
